@@ -130,10 +130,11 @@ impl DcpsDomainParticipant {
             .flat_map(|subscriber| subscriber.data_reader_list.iter())
             .filter_map(|data_reader| {
                 if let DurationKind::Finite(deadline) = data_reader.qos.deadline.period {
+                    // Same time stamps as check_missed_reader_deadline, otherwise a due timer finds nothing to do
                     data_reader
-                        .instance_ownership
+                        .instances
                         .iter()
-                        .map(|instance| deadline - (now - instance.last_received_time))
+                        .map(|instance| deadline - (now - instance.last_received_time_stamp()))
                         .min()
                 } else {
                     None
